@@ -5,7 +5,8 @@ From Coq Require Import ZArith List Bool.
 Import ListNotations.
 Open Scope Z_scope.
 
-Inductive earg := ANone | AInt (k : Z) | AStr | ATrue | AFalse.
+Inductive earg := ANone | AInt (k : Z) | AStr | ATrue | AFalse
+                | AEmptyStr | AEmptyList.      (* falsy objects that are neither None nor a number: sys.exit('') / sys.exit([]) end with status 1 *)
 Inductive tmode :=
 | FallOff                       (* script ends normally *)
 | SysExit (a : earg)            (* sys.exit(a): goes through the interposed sys.exit *)
@@ -29,7 +30,7 @@ Definition code_ok (r : rec_code) : bool :=
   match r with
   | RNotCalled | RCode ANone | RCode AFalse => true
   | RCode (AInt k) => k =? 0
-  | RCode AStr | RCode ATrue => false
+  | RCode AStr | RCode ATrue | RCode AEmptyStr | RCode AEmptyList => false
   end.
 (* maybe(final)() *)
 Definition hook_calls_final (m : tmode) : bool :=
@@ -39,7 +40,7 @@ Definition prove_runs (autoprove : bool) (m : tmode) : bool := hook_calls_final 
 
 (* process exit status as the shell sees it *)
 Definition arg_status (a : earg) : Z :=
-  match a with ANone | AFalse => 0 | AInt k => k mod 256 | AStr | ATrue => 1 end.
+  match a with ANone | AFalse => 0 | AInt k => k mod 256 | AStr | ATrue | AEmptyStr | AEmptyList => 1 end.
 Definition status (m : tmode) : Z :=
   match m with
   | FallOff => 0
@@ -50,3 +51,15 @@ Definition status (m : tmode) : Z :=
   end.
 (* the property: artefacts are produced iff the run is successful and automatic proving is on *)
 Definition spec (autoprove : bool) (m : tmode) : bool := autoprove && (status m =? 0).
+
+(* ---- histories: a script may call sys.exit(a) several times and swallow (or replace, in a finally block / __exit__) the
+   SystemExit it raises; the interposed sys.exit records the argument of EVERY call (the last one wins), the excepthook
+   records the exception the script finally dies of.  [caught] = arguments of the swallowed calls, in order. ---- *)
+Record hrun := R { caught : list earg; final : tmode }.
+Definition h_recorded (h : hrun) : rec_code * bool :=
+  let '(r, ex) := interposer (final h) in
+  (match r with RCode a => RCode a | RNotCalled => match rev (caught h) with a :: _ => RCode a | [] => RNotCalled end end, ex).
+Definition h_hook_calls_final (h : hrun) : bool :=
+  atexit_runs (final h) && (let '(r, ex) := h_recorded h in code_ok r && negb ex).
+Definition h_prove_runs (autoprove : bool) (h : hrun) : bool := h_hook_calls_final h && autoprove.
+Definition h_status (h : hrun) : Z := status (final h).
